@@ -48,6 +48,9 @@ def node_reset_helpers(unit):
                     if not (t.kind == 'DeclRefExpr' and t.ref_kind == 'VarDecl'):
                         ok = False
                 elif n.kind == 'BinaryOperator' and n.opcode == '=':
+                    l0 = n.inner[0].strip()
+                    if l0.kind == 'DeclRefExpr' and l0.ref_kind == 'VarDecl' and l0.ref_name not in getattr(unit, 'globals', {}):
+                        continue            # a local cursor (`mem = mem->next`)
                     nasg += 1
                     if n.inner[1].strip_all().int_value() != 0:
                         ok = False
